@@ -16,3 +16,6 @@ ASSUMPTIONS = ["as C30"]
 
 def nontrivial(case, model_out):
     return case.fid in ("3003", "3102", "602", "1202")
+
+# fids whose cases apply hint overrides addressed by (generator kind, occurrence) - see runner.default_judge
+OVERRIDE_FIDS = {"602", "1202", "3003", "3102"}
